@@ -254,3 +254,47 @@ def i11_names(seed, limit_occurrences=3):
                         seed[:pos] + len(other).to_bytes(4, 'big') + other + seed[pos + len(needle):]
             if found >= limit_occurrences:
                 break
+
+
+# ---- I12: constants the library itself compares input against ----------------------------------------------------------
+_MAGIC = None
+
+
+def magic_constants():
+    """[(qualified name, bytes)] - every octet-string constant of at least 4 octets defined at module or class level in
+    the package (RFC 8446 s4.1.3 HelloRetryRequest random, ...), plus the composed form of module-level parsable
+    instances: values a parser may special-case, so inputs carrying them get their own executions."""
+    global _MAGIC
+    if _MAGIC is not None:
+        return _MAGIC
+    import importlib
+    import pkgutil
+    import cryptoparser
+    found = {}
+    for m in pkgutil.walk_packages(cryptoparser.__path__, 'cryptoparser.'):
+        try:
+            mod = importlib.import_module(m.name)
+        except Exception:  # noqa
+            continue
+        scopes = [(m.name, vars(mod))]
+        for k, v in list(vars(mod).items()):
+            if isinstance(v, type) and getattr(v, '__module__', None) == m.name:
+                scopes.append(('%s.%s' % (m.name, k), vars(v)))
+        for prefix, ns in scopes:
+            for k, v in list(ns.items()):
+                if isinstance(v, (bytes, bytearray)) and len(v) >= 4:
+                    found.setdefault(bytes(v), '%s.%s' % (prefix, k))
+    # RFC 8446 s4.1.3 downgrade sentinels (last 8 octets of ServerHello.random)
+    found.setdefault(b'DOWNGRD\x01', 'rfc8446.downgrade_tls12')
+    found.setdefault(b'DOWNGRD\x00', 'rfc8446.downgrade_tls11')
+    _MAGIC = sorted((name, val) for val, name in found.items())
+    return _MAGIC
+
+
+def i12_magic(seed):
+    """Every library-defined constant written over the seed at every offset where it fits."""
+    for name, val in magic_constants():
+        for off in range(0, len(seed) - len(val) + 1):
+            b = seed[:off] + val + seed[off + len(val):]
+            if b != seed:
+                yield ('I12', name.rsplit('.', 1)[-1], off), b
